@@ -39,7 +39,8 @@ def fmt_headers(items):
 
 def fmt_parms(parms):
     items = list((parms or {}).items())
-    return "%d%s" % (len(items), "".join(" %s %s" % (hx(bytes(k)), "~" if v is None else hx(bytes(v))) for k, v in items))
+    t = lambda x: x if isinstance(x, str) else bytes(x)
+    return "%d%s" % (len(items), "".join(" %s %s" % (hx(t(k)), "~" if v is None else hx(t(v))) for k, v in items))
 
 
 def optbool(v):
@@ -81,7 +82,67 @@ class CHECK(core.Check):
     N_THOROUGH = 20000
     N_SEARCH = 1500
     RULE = ("four case kinds from one PRNG: chunk (binary data 0..3000 bytes + arbitrary rest), header blocks (token "
-            "names in mixed case, latin-1 values with leading/trailing blanks, ': ' inside, str/int/bytes values, "
+            "names in mixed case, latin-1 values with blanks, ':' and ',' inside, str/int/bytes values, "
+            "duplicates), requests (all 9 methods, unicode paths with blanks and reserved characters, query names that "
+            "are URL tokens with arbitrary unicode values, query inside the path, user headers, binary bodies, JSON "
+            "values, form args with arbitrary keys/values) and WSGI responses (Content-Length given / chunked / streamed "
+            "until close / empty / HTTPError before and after the first write / return value / empty yields / pieces "
+            "exceeding Content-Length); ~12% malformed stream (raw bytes to parseChunk, parseLeader, the request and "
+            "response parsers). Non-trivial = a message was built and parsed back completely; distinct by content")
+    TRUSTED = ["correspondence: the real packChunk/parseChunk/packHeader/parseLeader, Requester.build, Requestant, "
+               "Valet.buildEnviron (called on a stand-in for the Valet), Responder (stand-in connection collecting .tx, "
+               "fixed clock for Date), Respondent of $IOFLO_REPO run in-process on the same inputs as the Lean model",
+               "urllib.parse (urlsplit, quote, unquote, quote_plus, unquote_plus) enters the model as the parameter `Std`, "
+               "instantiated from the calls the implementation made; json.dumps output is an input of the model",
+               "oracle uses CPython's parse_qsl / json.loads as the reference readers of query strings, form bodies and JSON",
+               "fix patch assumed applied: fixes/D30a (form values quoted separately)"]
+    PARTIAL = ["the theorems are about the wire format: that Requester.build and Responder.service emit exactly that format "
+               "(and, for the request target, that urlsplit/quote/unquote/quote_plus round-trip paths and query values) is "
+               "established by the correspondence runs, not in Lean; the WSGI environment (Valet.buildEnviron) is a "
+               "correspondence check only",
+               "whole-buffer parsing only (arrival in pieces is C29); chunk extensions (always a TypeError in parseChunk), "
+               "multipart/form-data bodies (random boundary), server sent events, idna fallbacks, AttributiveGenerator "
+               "overrides, Python int() spellings with sign/underscore/0x are outside the model"]
+    TECHNIQUE = ("Lean 4 theorems about byte-level codecs (round trips by induction over lists; structural line splitter; "
+                 "hex/decimal numerals) + differential correspondence of the builders and parsers of both directions")
+    LEVEL_TEXT = ("Proved on the model, for all inputs and every behaviour of urllib.parse: parseChunk(packChunk(b)+rest) = "
+                  "(len b, b, rest) (C30_chunk_roundtrip) and a whole chunked body of any number of pieces "
+                  "(C30_chunked_body_roundtrip); a block of up to 100 packHeader lines parses back to the lower-cased dict, "
+                  "last duplicate wins (C30_header_roundtrip); a request on the wire (any of the 9 methods, any visible-ASCII "
+                  "target, such header lines, Content-Length framing) is parsed by Requestant into the same method, target, "
+                  "headers and body with the rest untouched (C30_request_wire_roundtrip); a response on the wire is parsed by "
+                  "Respondent into the same status, reason, headers and body in each framing mode: Content-Length, chunked, "
+                  "until close (C30_response_wire_length / _chunked / _until_close).")
+    LEVEL_NOTE = ("Trusted: Lean kernel; axioms propext, Classical.choice, Quot.sound; the hand transcription of httping.py, "
+                  "clienting.py (Requester, Respondent) and serving.py (Requestant, Responder, buildEnviron) validated only "
+                  "by the correspondence runs (which also tie the builders to the wire format the theorems speak about); "
+                  "CPython's urllib.parse and json (parameters / inputs of the model); stand-ins for connection, clock, Valet.")
+
+    def __init__(self):
+        self.txes = []
+        self.timeout = 1.0
+        self.ca = ("127.0.0.1", 50000)
+
+    def tx(self, data):
+        self.txes.append(bytes(data))
+
+
+class _FakeDatetimeModule:
+    class datetime(datetime.datetime):
+        @classmethod
+        def utcnow(cls):
+            return FIXED_NOW
+
+
+class CHECK(core.Check):
+    PROPERTY = "C30"
+    LEAN_MODULES = ["IofloModel.Props.C30"]
+    ENGINE = "httpcodec"
+    N_QUICK = 500
+    N_THOROUGH = 20000
+    N_SEARCH = 1500
+    RULE = ("four case kinds from one PRNG: chunk (binary data 0..3000 bytes + arbitrary rest), header blocks (token "
+            "names in mixed case, latin-1 values with blanks, ':' and ',' inside, str/int/bytes values, "
             "duplicates), requests (all 9 methods, unicode paths with blanks and reserved characters, query names that "
             "are URL tokens with arbitrary unicode values, query inside the path, user headers, binary bodies, JSON "
             "values, form args with arbitrary keys/values) and WSGI responses (Content-Length given / chunked / streamed "
@@ -108,7 +169,7 @@ class CHECK(core.Check):
         self._trace = {}
 
     # ------------------------------------------------------------------ generation
-    TOKCH = "abcdefghijklmnopqrstuvwxyzABCDEFGHIJKLMNOPQRSTUVWXYZ0123456789-_.~!#$%&'*+^`|"
+    TOKCH = "abcdefghijklmnopqrstuvwxyzABCDEFGHIJKLMNOPQRSTUVWXYZ0123456789-_.~!#$%&'*+^`|"   # RFC 7230 tchar
     VALS = ["", "1", "v", "a b", "é", "中文", "a&b", "a=b", "a+b", "100%", "x/y?z", "#h", "~._-", "true", " ", " lead",
             "trail ", "a;b", "%41", "\U0001F600", "q\"uote", "back\\slash", "tab\there"]
 
@@ -121,13 +182,13 @@ class CHECK(core.Check):
                        for _ in range(rng.choice([1, 2, 3, 5, 9])))
 
     def _hname(self, rng):
-        base = rng.choice(["X-Thing", "accept", "Content-Type", "x_y", "ETag", "x-1a2B", "a:b", "Cookie", "content-md5"])
+        base = rng.choice(["X-Thing", "accept", "Content-Type", "x_y", "ETag", "x-1a2B", "Cookie", "content-md5"])
         return base if rng.random() < 0.6 else self._token(rng)
 
     def _hvalue(self, rng):
         n = rng.choice([0, 1, 3, 8, 20])
         s = "".join(chr(rng.choice([rng.randrange(32, 127), rng.randrange(160, 256), 32, 58, 44, 9])) for _ in range(n))
-        return s
+        return s.strip()      # a field value has no surrounding blanks (RFC 7230 OWS is not part of the value)
 
     def _path(self, rng):
         alphabet = ["a", "b", "Z", "9", "-", "_", ".", "~", "é", "中", " ", "+", "%", "=", "&", "!", ":", "@", ";", ",",
@@ -168,7 +229,7 @@ class CHECK(core.Check):
         for _ in range(rng.choice([0, 0, 1, 2, 4])):
             kind = rng.choice(["s", "s", "s", "i", "b"])
             v = self._hvalue(rng) if kind == "s" else (rng.randrange(100000) if kind == "i" else
-                                                       bytes(rng.randrange(32, 127) for _ in range(rng.randrange(6))).hex())
+                                                       bytes(rng.randrange(33, 127) for _ in range(rng.randrange(6))).hex())
             name = self._hname(rng)
             if name.lower() == "content-type" and kind != "s":
                 kind, v = "s", "text/x-thing"          # a content type is text
@@ -256,7 +317,11 @@ class CHECK(core.Check):
                 for _ in range(rng.choice([1, 1, 1, 2, 3])):
                     kind = rng.choice(["s", "s", "i", "b"])
                     vals.append([kind, self._hvalue(rng) if kind == "s" else (rng.randrange(10 ** 6) if kind == "i" else
-                                                                               bytes(rng.randrange(32, 127) for _ in range(4)).hex())])
+                                                                               bytes(rng.randrange(33, 127) for _ in range(4)).hex())])
+                if len(vals) > 1:          # the joined field value must not begin or end with a blank
+                    for i in (0, -1):
+                        if vals[i][0] == "s" and not vals[i][1]:
+                            vals[i] = ["i", rng.randrange(10)]
                 hs.append([self._hname(rng), vals])
             rest = bytes(rng.randrange(256) for _ in range(rng.choice([0, 0, 5])))
             return {"kind": "header", "headers": hs, "rest": rest.hex()}
@@ -278,7 +343,7 @@ class CHECK(core.Check):
         for n in range(top + 1):
             yield {"kind": "chunk", "data": bytes((i * 7 + 13) % 256 for i in range(n)).hex(), "rest": "0d0a"}
         for b in range(256):
-            if b in (10, 13):
+            if chr(b).isspace():       # surrounding blanks are not part of a field value
                 continue
             yield {"kind": "header", "headers": [["X-B", [["s", chr(b)]]]], "rest": ""}
         for m in METHODS:
